@@ -84,6 +84,24 @@ func init() {
 		prog("progFlvMuxerProcess", "av/format/flv/muxer.go", "Muxer", "process")
 		prog("progTsMuxerClose", "av/format/mpegts/muxer.go", "Muxer", "Close")
 		prog("progTsMuxerProcess", "av/format/mpegts/muxer.go", "Muxer", "process")
+		// the delivery side never writes through the shared packet / tag (C01 "unmodified")
+		mut := func(lean, file, recv, fn, through string) {
+			fd := FuncDecl(Parse(file), recv, fn)
+			if fd == nil {
+				e.Unknown(recv + "." + fn)
+			}
+			if through == "<recv>" {
+				through = RecvName(fd)
+			}
+			e.P("/-- %s: %s.%s — writes through `%s` -/", file, recv, fn, through)
+			e.P("def %s : List String := %s", lean, LeanStrList(Mutations(fd, through)))
+		}
+		mut("mutPacketWrite", "av/format/rtp/packet.go", "Packet", "Write", "<recv>")
+		mut("mutTcpConsume", "service/rtsp/session_roles.go", "tcpConsumer", "Consume", "p2")
+		mut("mutUdpConsume", "service/rtsp/session_roles.go", "udpConsumer", "Consume", "p2")
+		mut("mutWspConsume", "service/wsp/session.go", "Session", "Consume", "p2")
+		mut("mutFlvWriteTag", "av/format/flv/flv.go", "Writer", "WriteFlvTag", "tag")
+		mut("mutFlvWriteTagFn", "av/format/flv/tag.go", "", "writeTag", "tag")
 		// per-protocol connection counters of the service entry points (C03)
 		prog("progRtspSessionProcess", "service/rtsp/session.go", "Session", "process")
 		prog("progPullPlayStream", "service/rtsp/pull_client.go", "PullClient", "playStream")
